@@ -310,6 +310,19 @@ func c13Common(c *h.Ctx, k *c13Case, smp map[string]interface{}) c13UUID {
 		return nil
 	}
 	c.Exec(1)
+	if err == nil {
+		c.ReusedInput(typ+".Unmarshal", k.B, func(b []byte) (r string) {
+			x := c13New(k.K)
+			h.Guard(func() {
+				if _, e := x.Unmarshal(b); e != nil {
+					r = "error"
+					return
+				}
+				r = x.String()
+			})
+			return r
+		}, smp)
+	}
 	if err != nil {
 		// "for every 128-bit value a parser accepts": a rejection puts the value outside the domain
 		c.Drift(typ+".Unmarshal", "rejects-own-version", fmt.Sprintf("%x: %v", []byte(k.B), err), smp)
